@@ -1,0 +1,257 @@
+//! Verification hooks. This module only exists when the crate is built with
+//! `--cfg pnordahl_monorail_verif`; nothing in a normal build refers to it.
+//!
+//! * `point` / `point_until`: named rendezvous points. With `MONORAIL_VERIF_CTL`
+//!   unset (or the point not selected by `MONORAIL_VERIF_POINTS`) a point returns
+//!   immediately. Otherwise the calling thread reports the point to the controller
+//!   listening on that unix socket and blocks until the controller answers.
+//! * `flush_interval_ms`: lets a simulation shorten the log flush interval.
+//! * `probe`: "this branch was reached" counters.
+//! * `capture`: wires in-memory readers through the real log pipeline exactly as
+//!   one target group of `run` does, so that a simulation can own time and chunking.
+
+use std::cell::RefCell;
+use std::collections::HashMap;
+use std::io::{BufRead, BufReader, Write};
+use std::os::unix::net::UnixStream;
+use std::sync::{Mutex, OnceLock};
+
+struct Ctl {
+    path: String,
+    actor: String,
+    // None => every point is active
+    points: Option<Vec<String>>,
+}
+
+fn ctl() -> Option<&'static Ctl> {
+    static CTL: OnceLock<Option<Ctl>> = OnceLock::new();
+    CTL.get_or_init(|| {
+        let path = std::env::var("MONORAIL_VERIF_CTL").ok()?;
+        if path.is_empty() {
+            return None;
+        }
+        let actor = std::env::var("MONORAIL_VERIF_ACTOR").unwrap_or_else(|_| "M".to_string());
+        let points = match std::env::var("MONORAIL_VERIF_POINTS") {
+            Ok(s) if s != "*" => Some(s.split(',').map(|x| x.to_string()).collect()),
+            _ => None,
+        };
+        Some(Ctl {
+            path,
+            actor,
+            points,
+        })
+    })
+    .as_ref()
+}
+
+thread_local! {
+    static CONN: RefCell<Option<(UnixStream, BufReader<UnixStream>)>> = const { RefCell::new(None) };
+}
+
+fn hex(s: &[u8]) -> String {
+    if s.is_empty() {
+        return "-".to_string();
+    }
+    let mut o = String::with_capacity(s.len() * 2);
+    for b in s {
+        o.push_str(&format!("{:02x}", b));
+    }
+    o
+}
+
+// Send one line and optionally wait for one reply line. Any failure to talk to the
+// controller makes the point inert: the system under test must never fail because
+// of its instrumentation.
+fn exchange(c: &Ctl, line: &str, want_reply: bool) -> Option<String> {
+    CONN.with(|cell| {
+        let mut slot = cell.borrow_mut();
+        if slot.is_none() {
+            let s = UnixStream::connect(&c.path).ok()?;
+            let r = BufReader::new(s.try_clone().ok()?);
+            *slot = Some((s, r));
+        }
+        let (s, r) = slot.as_mut()?;
+        s.write_all(line.as_bytes()).ok()?;
+        if !want_reply {
+            return Some(String::new());
+        }
+        let mut reply = String::new();
+        let n = r.read_line(&mut reply).ok()?;
+        if n == 0 {
+            return None;
+        }
+        Some(reply.trim_end().to_string())
+    })
+}
+
+fn active(c: &Ctl, name: &str) -> bool {
+    match &c.points {
+        None => true,
+        Some(v) => v.iter().any(|p| p == name),
+    }
+}
+
+/// A named point. Blocks while the controller withholds its answer.
+pub fn point(name: &str, detail: &str) {
+    point_until(name, detail, || true)
+}
+
+/// A named point with a predicate over the state of the system under test. The
+/// controller may answer `UNTIL`, in which case the caller spins (bounded) until the
+/// predicate holds and reports whether it did, then waits for a final `GO`.
+pub fn point_until(name: &str, detail: &str, pred: impl Fn() -> bool) {
+    let c = match ctl() {
+        Some(c) => c,
+        None => return,
+    };
+    if !active(c, name) {
+        return;
+    }
+    let line = format!(
+        "POINT {} {} {} {}\n",
+        hex(c.actor.as_bytes()),
+        std::process::id(),
+        hex(name.as_bytes()),
+        hex(detail.as_bytes())
+    );
+    let mut reply = match exchange(c, &line, true) {
+        Some(r) => r,
+        None => return,
+    };
+    while reply == "UNTIL" {
+        let t0 = std::time::Instant::now();
+        let mut ok = pred();
+        while !ok && t0.elapsed() < std::time::Duration::from_secs(5) {
+            std::thread::sleep(std::time::Duration::from_micros(200));
+            ok = pred();
+        }
+        reply = match exchange(c, &format!("UNTILDONE {}\n", if ok { 1 } else { 0 }), true) {
+            Some(r) => r,
+            None => return,
+        };
+    }
+}
+
+/// Flush interval of the log reader, overridable by `MONORAIL_VERIF_FLUSH_MS`.
+pub fn flush_interval_ms(default: u64) -> u64 {
+    static V: OnceLock<Option<u64>> = OnceLock::new();
+    V.get_or_init(|| {
+        std::env::var("MONORAIL_VERIF_FLUSH_MS")
+            .ok()
+            .and_then(|s| s.parse::<u64>().ok())
+            .filter(|v| *v > 0)
+    })
+    .unwrap_or(default)
+}
+
+static PROBES: Mutex<Option<HashMap<&'static str, u64>>> = Mutex::new(None);
+
+/// Count that a branch of interest was reached.
+pub fn probe(name: &'static str) {
+    if let Ok(mut g) = PROBES.lock() {
+        *g.get_or_insert_with(HashMap::new).entry(name).or_insert(0) += 1;
+    }
+    if let Some(c) = ctl() {
+        if active(c, "probe") {
+            let _ = exchange(c, &format!("PROBE {}\n", hex(name.as_bytes())), false);
+        }
+    }
+}
+
+/// Snapshot and reset of the in-process probe counters.
+pub fn take_probes() -> HashMap<&'static str, u64> {
+    PROBES
+        .lock()
+        .ok()
+        .and_then(|mut g| g.take())
+        .unwrap_or_default()
+}
+
+/// One task of a captured group: its two output streams and where they are stored.
+pub struct CaptureTask<R> {
+    pub stdout: R,
+    pub stderr: R,
+    pub stdout_path: std::path::PathBuf,
+    pub stderr_path: std::path::PathBuf,
+}
+
+/// Drive the log pipeline for one group of tasks the way `run` does for a target
+/// group: one compressor with two threads, files registered round-robin in task
+/// order (stdout then stderr), one spawned task per member joining both readers,
+/// then the shutdown sequence and the compressor join. If `cancel_after` is given,
+/// the group's cancellation token fires after that (runtime-clock) duration.
+/// Returns one entry per task: Ok or the error text of its reader pair.
+pub async fn capture<R>(
+    tasks: Vec<CaptureTask<R>>,
+    cancel_after: Option<std::time::Duration>,
+) -> Result<Vec<Result<(), String>>, String>
+where
+    R: tokio::io::AsyncRead + Unpin + Send + 'static,
+{
+    use crate::app::log;
+    let n = tasks.len();
+    let token = std::sync::Arc::new(tokio_util::sync::CancellationToken::new());
+    let mut compressor = log::Compressor::new(
+        2,
+        std::sync::Arc::new(std::sync::atomic::AtomicBool::new(false)),
+    );
+    let mut clients = Vec::new();
+    for t in tasks.iter() {
+        let so = compressor
+            .register(&t.stdout_path)
+            .map_err(|e| e.to_string())?;
+        let se = compressor
+            .register(&t.stderr_path)
+            .map_err(|e| e.to_string())?;
+        clients.push((so, se));
+    }
+    let compressor_handle = std::thread::spawn(move || compressor.run());
+    let mut js = tokio::task::JoinSet::new();
+    for (id, t) in tasks.into_iter().enumerate() {
+        let (so, se) = (clients[id].0.clone(), clients[id].1.clone());
+        let token = token.clone();
+        js.spawn(async move {
+            let target = format!("task{}", id);
+            let so_header = log::get_header(&so.file_name, &target, "cmd", true);
+            let se_header = log::get_header(&se.file_name, &target, "cmd", true);
+            let so_fut = log::process_reader(
+                tokio::io::BufReader::new(t.stdout),
+                so,
+                so_header,
+                None,
+                token.clone(),
+            );
+            let se_fut = log::process_reader(
+                tokio::io::BufReader::new(t.stderr),
+                se,
+                se_header,
+                None,
+                token.clone(),
+            );
+            let r = tokio::try_join!(so_fut, se_fut);
+            (id, r.map(|_| ()).map_err(|e| e.to_string()))
+        });
+    }
+    if let Some(d) = cancel_after {
+        let token = token.clone();
+        tokio::spawn(async move {
+            tokio::time::sleep(d).await;
+            token.cancel();
+        });
+    }
+    let mut out: Vec<Result<(), String>> = (0..n).map(|_| Ok(())).collect();
+    while let Some(j) = js.join_next().await {
+        let (id, r) = j.map_err(|e| e.to_string())?;
+        out[id] = r;
+    }
+    // a compressor thread that already left on the first Shutdown is not this hook's concern
+    for client in clients {
+        let _ = client.0.shutdown().await;
+        let _ = client.1.shutdown().await;
+    }
+    compressor_handle
+        .join()
+        .map_err(|_| "compressor thread panicked".to_string())?
+        .map_err(|e| e.to_string())?;
+    Ok(out)
+}
